@@ -72,7 +72,7 @@ Proof.
   unfold running in *. destruct (rc s) eqn:R; try discriminate.
   assert (Hidle : hi = rs_last s /\ published s <= last_commit (all_recs (segs s))).
   { destruct HV. unfold rd_inv in v_rd. rewrite E in v_rd. exact v_rd. }
-  assert (Hp0 : pend_idx s = 0) by (unfold pend_idx, pending; rewrite E; reflexivity).
+  assert (Hp0 : pend_idx s = 0) by (unfold pend_idx, pend_r, pending; rewrite E; reflexivity).
   destruct (0 <? r_snap r) eqn:Qs.
   - (* a Ready with an incoming snapshot *)
     assert (Hs : 0 < r_snap r) by (apply N.ltb_lt; exact Qs).
@@ -82,8 +82,8 @@ Proof.
     + unfold running. proj. rewrite R.
       assert (Hp1 : pend_idx (set_proposed (set_rdseq (set_rdp s (RdBegun r false false)) (rdseq s + 1))
                                  (N.max (proposed s) (r_snap r))) = r_snap r).
-      { unfold pend_idx, pending. proj. rewrite Qs. reflexivity. }
-      destruct HV. constructor; unfold snap_pend, snap_done, snap_busy in *; proj; rewrite ?Hp1; rewrite ?Hp0 in *; auto.
+      { unfold pend_idx, pend_r, pending. proj. rewrite Qs. reflexivity. }
+      destruct HV. constructor; unfold snap_pend, snap_done, snap_mid, snap_busy in *; proj; rewrite ?Hp1; rewrite ?Hp0 in *; auto.
       * unfold rd_inv. proj. rewrite Qs. destruct Hidle as [A B].
         split; [unfold snapfacts; proj; repeat split; auto; lia|]. split; [exact S7|]. split; [exact (flushed_state_of s hi HP S8)|].
         split; [exact B | exact S6].
@@ -93,7 +93,7 @@ Proof.
       * eapply Forall_impl; [|exact v_queue]. simpl. intros b [Hb1 Hb2]. split; [exact Hb1|].
         intros Hb. destruct (Hb2 Hb) as [_ [_ [X _]]]. lia.
       * destruct (app s); auto; destruct v_app as [A1 [A2 A3]]; try (destruct A3 as [_ [X _]]; lia).
-        split; [exact A1|]. split; [exact A2|]. destruct A3 as [[_ [X _]]|A3]; [lia | right; exact A3].
+        split; [exact A1|]. split; [exact A2|]. destruct A3 as [[_ [X _]]|[A3|[_ [X _]]]]; [lia | right; left; exact A3 | lia].
       * intros f Hf Hn. destruct (v_files f Hf Hn) as [X|[X _]]; [left; exact X | left].
         exfalso. rewrite X in Hf. exact (p_nozero _ _ HP Hf).
       * intros i Hi. destruct (v_unval i Hi) as [X|[X|[X X']]]; auto. lia.
@@ -104,8 +104,8 @@ Proof.
     + destruct HP. constructor; proj; auto. lia.
     + unfold running. proj. rewrite R.
       assert (Hp1 : forall x, pend_idx (set_proposed (set_rdseq (set_rdp s (RdBegun r false false)) (rdseq s + 1)) x) = 0).
-      { intros x. unfold pend_idx, pending. proj. rewrite Qs. reflexivity. }
-      destruct HV. constructor; unfold snap_pend, snap_done, snap_busy in *; proj; rewrite ?Hp1; rewrite ?Hp0 in *; auto.
+      { intros x. unfold pend_idx, pend_r, pending. proj. rewrite Qs. reflexivity. }
+      destruct HV. constructor; unfold snap_pend, snap_done, snap_mid, snap_busy in *; proj; rewrite ?Hp1; rewrite ?Hp0 in *; auto.
       unfold rd_inv. proj. rewrite Qs. destruct Hidle as [Hhi Hpub]. unfold rlast in *. proj.
       split; [split|split; [split; [|split; [|split]]|split]].
       * intros Hn. destruct (R1 Hn) as [A [B _]]. repeat split; auto.
@@ -182,11 +182,104 @@ Proof.
   unfold lo_of, hd_first in *. lia.
 Qed.
 
+Lemma snap_tail_app : forall s x hi i rs, segs s <> [] -> segs x = app_tail (segs s) rs -> forallb tail_rec rs = true ->
+  snap_tail s hi i -> snap_tail x hi i.
+Proof.
+  intros s x hi i rs Hne Es Hrs [pre [sl [a [b [E1 [E2 E3]]]]]]. rewrite E1 in Es. rewrite app_tail_snoc in Es.
+  exists pre, (mkSeg (sfirst sl) (srecs sl ++ rs)), a, (b ++ rs). split; [exact Es|]. split.
+  - simpl. rewrite E2, <- app_assoc. reflexivity.
+  - rewrite forallb_app, E3, Hrs. reflexivity.
+Qed.
+
+Lemma nth_map_sfirst : forall (l l' : list seg) n, map sfirst l' = map sfirst l ->
+  sfirst (nth n l' (mkSeg 0 [])) = sfirst (nth n l (mkSeg 0 [])).
+Proof.
+  intros l l' n H. change 0 with (sfirst (mkSeg 0 [])) at 1.
+  rewrite <- (map_nth sfirst l'), <- (map_nth sfirst l), H. reflexivity.
+Qed.
+
+(* the Save of the hard state behind the record of an incoming snapshot cuts the segment: records and hard state are
+   flushed into the old segment, the record is valid from here on (the log ends at the snapshot) *)
+Lemma cut_before_snap : forall c s r pb idx hi,
+  PInv s hi -> VInv c s hi -> rc s = RcRunning -> rdp s = RdSaving r pb false -> (0 <? r_snap r) = true ->
+  idx = r_snap r + 1 -> forallb (fun b => b_snap b =? 0) (queue s) = true ->
+  Inv c (set_rdp (set_unsynced (set_unflushed (set_segs (save_records s r) (validated (r_snap r) (app_tail (segs s) (ready_records r)))) 0)
+                    (if opt_fsync c then (unsynced s + length (ready_records r))%nat else 0%nat)) (RdSnapCut r 0 idx)).
+Proof.
+  intros c s r pb idx hi HP HV R E Qs Hidx Gq.
+  pose proof (pinv_segs_nonempty _ _ HP) as Hne.
+  pose proof (v_rd _ _ _ HV) as V. unfold rd_inv in V. rewrite E, Qs in V.
+  destruct V as [Hpb [SF [Lc [Pb W]]]]. subst pb.
+  destruct SF as [Sn [Scn [Shs [Scm [Shi [Slt Spr]]]]]].
+  destruct W as [W1 [W2 [W3 W4]]].
+  assert (Q0 : 0 < r_snap r) by (apply N.ltb_lt; exact Qs).
+  assert (Hrr : ready_records r = [RState (r_snap r)]).
+  { rewrite ready_records_eq. assert (Q : (0 <? r_n r) = false) by lia. rewrite Q, Shs, Scm. reflexivity. }
+  assert (Hp : pend_idx s = r_snap r) by (unfold pend_idx, pend_r, pending; rewrite E, Qs; reflexivity).
+  assert (Hw : in_window s = 1%nat) by (unfold in_window; rewrite E, Qs; reflexivity).
+  (* the records are in the file *)
+  set (sA := set_unflushed (save_records s r) 0).
+  assert (HPA : PInv sA hi).
+  { apply (pinv_save s sA hi hi [] true (r_snap r) true); auto; try (unfold sA; proj; reflexivity).
+    - unfold sA. proj. rewrite Hrr. reflexivity.
+    - rewrite range_nil by lia. reflexivity.
+    - destruct HP; lia.
+    - intros _. specialize (Lc 0%nat ltac:(lia)). rewrite drop_tail_0 in Lc. lia. }
+  assert (HtA : snap_tail sA hi (r_snap r)).
+  { apply (snap_tail_app s sA hi (r_snap r) (ready_records r)); auto. rewrite Hrr. reflexivity. }
+  assert (HlcA : last_commit (all_recs (segs sA)) = r_snap r).
+  { unfold sA. proj. rewrite save_lc by auto. rewrite Shs. exact Scm. }
+  match goal with |- Inv c ?st => set (s1 := st) end.
+  destruct (pinv_validate sA s1 hi (r_snap r) HPA HtA Slt) as [HP' [Hnw [Hlc [Hun [Hpm Hsf]]]]]; try reflexivity; auto; try lia.
+  pose proof (pinv_newest_le_hi _ _ HP) as Hnh.
+  exists (r_snap r). split; [exact HP'|].
+  unfold running. unfold s1 at 1. proj. rewrite R.
+  assert (Hp' : pend_idx s1 = r_snap r) by reflexivity.
+  assert (Hw' : in_window s1 = 0%nat) by reflexivity.
+  assert (Hlen : length (segs s1) = length (segs s)).
+  { rewrite <- (map_length sfirst), Hsf, map_length. unfold sA. proj. apply app_tail_length. }
+  assert (HunS : forall u, In u (unvalidated (all_recs (segs s1))) -> In u (unvalidated (all_recs (segs s)))).
+  { intros u Hu. apply Hun in Hu. unfold sA in Hu. proj. rewrite save_unvalidated in Hu by auto. exact Hu. }
+  assert (HpmS : forall m, In m (pmarkers (all_recs (segs s1))) <-> m = r_snap r \/ In m (pmarkers (all_recs (segs s)))).
+  { intros m. rewrite Hpm. unfold sA. proj. rewrite save_markers by auto. reflexivity. }
+  rewrite HlcA in Hlc.
+  destruct HV; constructor; unfold snap_pend, snap_done, snap_mid, snap_busy in *; rewrite ?Hp', ?Hw', ?Hnw, ?Hlc, ?Hlen; rewrite ?Hp, ?Hw in *;
+    unfold s1; proj; fold s1; try assumption; try exact I.
+  - unfold rd_inv. rewrite Hnw. unfold s1. proj. rewrite Shs, orb_true_r. destruct v_done as [D1 [D2 D3]]. repeat split; auto; lia.
+  - lia.
+  - destruct v_nrel as [N1 N2]. split; [exact N1|].
+    change (validated (r_snap r) (app_tail (segs s) (ready_records r))) with (segs s1). rewrite (nth_map_sfirst _ _ _ Hsf).
+    unfold sA. proj. rewrite nth_sfirst_app_tail. lia.
+  - destruct v_latest as [[L1|[_ L1]] L2]; (split; [left; lia | intros lat Hl; specialize (L2 lat Hl); lia]).
+  - rewrite Shs, Scm, orb_true_r. split; [intros; reflexivity | lia].
+  - destruct v_done as [D1 [D2 D3]]. lia.
+  - rewrite forallb_forall in Gq. rewrite Forall_forall in *. intros b Hin. destruct (v_queue b Hin) as [B1 B2].
+    split; [destruct B1 as [B1|B1]; [left; exact B1 | right; lia]|].
+    intros Hb. exfalso. specialize (Gq b Hin). apply N.eqb_eq in Gq. lia.
+  - rewrite W4 in *. destruct v_app as [A1 [A2 A3]]. split; [exact A1|]. split; [exact A2|]. right. right. repeat split; auto.
+  - rewrite W4. split; [tauto | right; exact I].
+  - intros j p Hl. destruct (v_sns j p Hl) as [S1 [S2 [S3 [S4 [S5 [S6 S7]]]]]].
+    rewrite W4 in v_app. destruct v_app as [A1 [A2 A3]]. destruct v_snapi as [I1 I2].
+    change (validated (r_snap r) (app_tail (segs s) (ready_records r))) with (segs s1).
+    split; [exact S1|]. split; [exact S2|]. split; [exact S3|]. split; [|split; [|split]]; try (intros; lia).
+    intros Hb Hin. apply HpmS in Hin. destruct Hin as [->|Hin]; [lia | exact (S4 Hb Hin)].
+  - intros f Hin Hn. destruct (v_files f Hin ltac:(lia)) as [X|[X _]]; [left; exact X | lia].
+  - intros f Hf. specialize (v_pgsnap f Hf). lia.
+  - intros u Hu. change (validated (r_snap r) (app_tail (segs s) (ready_records r))) with (segs s1) in Hu. apply HunS in Hu.
+    destruct (v_unval u Hu) as [X|[X|X]]; [left; lia | right; left; exact X | left; lia].
+  - destruct (ckp s) eqn:Ec; try exact I. destruct v_ck as [K1 [[K2 K2'] [K3 [K4 K5]]]].
+    split; [exact K1|]. split; [split; lia|]. split; [exact K3|]. split; [exact K4 | exact K5].
+Qed.
+
 Lemma step_cut_before : forall c s s' idx, Inv c s -> step c s (EvCutBefore idx) = Ok s' -> Inv c s'.
 Proof.
   intros c s s' idx HI H. start_step H hi HP HV.
-  norm_guards.
-  match goal with G : (_ || _) = true |- _ => rename G into G0 end.
+  all: norm_guards.
+  all: match goal with G : (_ || _) = true |- _ => rename G into G0 end.
+  1: { (* the Save of the hard state behind an incoming snapshot's record cuts the segment *)
+    unfold running in *. proj. destruct (rc s) eqn:R; try (not_running HV).
+    match goal with G : (idx =? _) = true |- _ => apply N.eqb_eq in G; rename G into G1 end.
+    eapply cut_before_snap; eauto. }
   match goal with G : (idx =? _) = true |- _ => rename G into G1 end.
   unfold running in *. proj. destruct (rc s) eqn:R; try (not_running HV).
   pose proof (pinv_segs_nonempty _ _ HP) as Hne.
@@ -194,7 +287,7 @@ Proof.
   unfold rd_inv in v_rd. rewrite E in v_rd.
   match goal with G : (0 <? r_snap r) = false |- _ => rename G into Qs end. rewrite Qs in v_rd.
   destruct v_rd as [[F1 F2] [[Uhi [Uw [Uh Uc]]] [Pp Pov]]].
-  assert (Hp0 : pend_idx s = 0) by (unfold pend_idx, pending; rewrite E, Qs; reflexivity).
+  assert (Hp0 : pend_idx s = 0) by (unfold pend_idx, pend_r, pending; rewrite E, Qs; reflexivity).
   destruct (save_entries_range s r hi Uhi F1) as [Erange Lrange].
   assert (HP' : PInv (set_rdp (set_unsynced (set_unflushed (save_records s r) 0) (if opt_fsync c then unsynced (save_records s r) else 0%nat)) (RdCutting r pb idx)) (rlast s r)).
   { apply (pinv_save s _ hi (rlast s r) (if 0 <? r_n r then range (r_first r - 1) (r_last r) else []) (r_hs r) (r_commit r) true);
@@ -209,12 +302,12 @@ Proof.
   { rewrite Hlc'. destruct (r_hs r) eqn:Qh; [apply Uh; reflexivity | lia]. }
   pose proof (vinv_app_inv _ _ _ HV) as Hai. pose proof (vinv_queue_inv _ _ _ HV) as Hqi.
   match goal with |- VInv c ?st _ => set (s1 := st) end.
-  assert (Hp1 : pend_idx s1 = 0) by (unfold pend_idx, pending, s1; proj; rewrite Qs; reflexivity).
+  assert (Hp1 : pend_idx s1 = 0) by (unfold pend_idx, pend_r, pending, s1; proj; rewrite Qs; reflexivity).
   assert (Hai' : app_inv s1 (rlast s r)).
   { apply (app_inv_grow s s1 hi (rlast s r)); auto; unfold s1; proj; auto. apply save_newest; auto. }
   assert (Hqi' : queue_inv s1 (rlast s r)) by (apply (queue_inv_grow s s1 hi (rlast s r)); auto).
-  unfold app_inv, queue_inv, snap_pend, snap_done in Hai', Hqi'. rewrite Hp1 in Hai', Hqi'. unfold s1 in *. clear s1. proj.
-  vinv_split HV; unfold snap_pend, snap_done in *; proj; pend_goal0 Qs; rewrite ?Hp0 in *;
+  unfold app_inv, queue_inv, snap_pend, snap_done, snap_mid in Hai', Hqi'. rewrite Hp1 in Hai', Hqi'. unfold s1 in *. clear s1. proj.
+  vinv_split HV; unfold snap_pend, snap_done, snap_mid in *; proj; pend_goal0 Qs; rewrite ?Hp0 in *;
     rewrite ?save_newest, ?save_markers, ?save_unvalidated, ?app_tail_length, ?nth_sfirst_app_tail by auto; try assumption.
   - (* raft loop *)
     unfold rd_inv. proj. rewrite Qs. unfold rlast in *. proj.
@@ -259,22 +352,51 @@ Lemma nth_sfirst_snoc : forall ss x n, (n < length ss)%nat ->
   sfirst (nth n (ss ++ [x]) (mkSeg 0 [])) = sfirst (nth n ss (mkSeg 0 [])).
 Proof. intros. rewrite app_nth1 by exact H. reflexivity. Qed.
 
+(* the new segment of a cut inside the Save of an incoming snapshot's hard state *)
+Lemma cut_after_snap : forall c s r idx hi,
+  PInv s hi -> VInv c s hi -> rc s = RcRunning -> rdp s = RdSnapCut r 0 idx ->
+  Inv c (set_rdp (set_unsynced (set_unflushed (set_segs s (segs s ++ [mkSeg idx (if wstate s then [RState (wcommit s)] else [])])) 0)
+                    (if opt_fsync c then (unsynced s + (if wstate s then 1 else 0))%nat else 0%nat)) (RdSnapCut r 1 idx)).
+Proof.
+  intros c s r idx hi HP HV R E.
+  pose proof (pinv_segs_nonempty _ _ HP) as Hne.
+  pose proof (v_rd _ _ _ HV) as V. unfold rd_inv in V. rewrite E in V.
+  destruct V as [V0 [V1 [V2 [V3 [V4 [V5 [V6 [V7 [V8 V9]]]]]]]]].
+  pose proof (v_wstate _ _ _ HV) as [W1 W2]. rewrite V7 in *. specialize (W1 eq_refl). subst idx.
+  exists hi. split.
+  - eapply (pinv_cut s _ hi (wcommit s)); eauto; try reflexivity.
+  - unfold running. proj. rewrite R.
+    assert (Hpe : forall t x, rdp t = RdSnapCut r x (hi + 1) -> pend_idx t = r_snap r) by (intros t x Ht; unfold pend_idx, pend_r; rewrite Ht; reflexivity).
+    assert (Hwe : forall t x, rdp t = RdSnapCut r x (hi + 1) -> in_window t = 0%nat) by (intros t x Ht; unfold in_window; rewrite Ht; reflexivity).
+    assert (Hp : pend_idx s = r_snap r) by (apply (Hpe s 0%nat); exact E).
+    assert (Hw : in_window s = 0%nat) by (apply (Hwe s 0%nat); exact E).
+    destruct HV; constructor; unfold snap_pend, snap_done, snap_mid, snap_busy in *; proj;
+      rewrite ?(Hpe _ 1%nat), ?(Hwe _ 1%nat) by reflexivity; rewrite ?Hp, ?Hw in *;
+      rewrite ?newest_snoc_state, ?markers_snoc_state, ?unvalidated_snoc_state, ?lc_snoc_state, ?app_length; try assumption; try exact I.
+    + unfold rd_inv. proj. rewrite newest_snoc_state. repeat split; auto.
+    + destruct v_nrel as [N1 N2]. split; [simpl; lia|]. rewrite nth_sfirst_snoc by exact N1. exact N2.
+    + split; [intros; reflexivity | lia].
+    + rewrite <- W1 in v_done. exact v_done.
+Qed.
+
 Lemma step_cut_after : forall c s s' idx, Inv c s -> step c s (EvCutAfter idx) = Ok s' -> Inv c s'.
 Proof.
-  intros c s s' idx HI H. start_step H hi HP HV. norm_guards.
+  intros c s s' idx HI H. start_step H hi HP HV. all: norm_guards.
+  2: { unfold running in *. proj. destruct (rc s) eqn:R; try (not_running HV).
+       match goal with G : (idx =? _) = true |- _ => apply N.eqb_eq in G; subst end. eapply cut_after_snap; eauto. }
   match goal with G : (idx =? _) = true |- _ => rename G into G1 end.
   unfold running in *. proj. destruct (rc s) eqn:R; try (not_running HV).
   pose proof (pinv_segs_nonempty _ _ HP) as Hne.
   pose proof HV as HV0. destruct HV0 as [v_rd _ _ _ v_ws _ _ _ _ _ _ _ _ _ _ _ _].
   unfold rd_inv in v_rd. rewrite E in v_rd. destruct (0 <? r_snap r) eqn:Qs; [contradiction|].
   destruct v_rd as [F [[Shi Sc] [Hidx [Huf [Hws Pp]]]]].
-  assert (Hp0 : pend_idx s = 0) by (unfold pend_idx, pending; rewrite E, Qs; reflexivity).
+  assert (Hp0 : pend_idx s = 0) by (unfold pend_idx, pend_r, pending; rewrite E, Qs; reflexivity).
   rewrite Hws in *. destruct v_ws as [W1 W2]. specialize (W1 eq_refl).
   assert (Ei : idx = hi + 1) by lia. subst idx.
   exists hi. split.
   - eapply (pinv_cut s _ hi (wcommit s)); eauto; try reflexivity.
   - unfold running. proj. rewrite R.
-    vinv_split HV; unfold snap_pend, snap_done in *; proj; pend_goal0 Qs; rewrite ?Hp0 in *;
+    vinv_split HV; unfold snap_pend, snap_done, snap_mid in *; proj; pend_goal0 Qs; rewrite ?Hp0 in *;
       rewrite ?newest_snoc_state, ?markers_snoc_state, ?unvalidated_snoc_state, ?lc_snoc_state, ?app_length; try assumption.
     + unfold rd_inv. proj. rewrite Qs. rewrite lc_snoc_state. unfold rlast in *. proj.
       split; [exact F|]. split; [split; [exact Shi | intros; rewrite W1; auto]|]. split; [exact Hws|].
@@ -315,18 +437,31 @@ Definition save_frame (s x : state) (r : ready) (ss : list seg) (ws : bool) (wc 
 Ltac frame_eqs X :=
   destruct X as [X1 [X2 [X3 [X4 [X5 [X6 [X7 [X8 [X9 [X10 [X11 [X12 [X13 [X14 [X15 [X16 [X17 [X18 [X19 [X20 [X21 [X23 [X24 [X25 X22]]]]]]]]]]]]]]]]]]]]]]]].
 
-Lemma snap_tail_app : forall s x hi i rs, segs s <> [] -> segs x = app_tail (segs s) rs -> forallb tail_rec rs = true ->
-  snap_tail s hi i -> snap_tail x hi i.
+
+(* the end of a Save that cut the segment behind an incoming snapshot's record: the new segment is flushed when the Save has to *)
+Lemma save_after_snapcut : forall c s r idx hi (fl sy : bool),
+  PInv s hi -> VInv c s hi -> rc s = RcRunning -> rdp s = RdSnapCut r 1 idx ->
+  Inv c (set_rdp (if fl && sy then set_unsynced (if fl then set_unflushed s 0 else s) 0 else (if fl then set_unflushed s 0 else s)) (RdSnapCut r 2 idx)).
 Proof.
-  intros s x hi i rs Hne Es Hrs [pre [sl [a [b [E1 [E2 E3]]]]]]. rewrite E1 in Es. rewrite app_tail_snoc in Es.
-  exists pre, (mkSeg (sfirst sl) (srecs sl ++ rs)), a, (b ++ rs). split; [exact Es|]. split.
-  - simpl. rewrite E2, <- app_assoc. reflexivity.
-  - rewrite forallb_app, E3, Hrs. reflexivity.
+  intros c s r idx hi fl sy HP HV R E.
+  exists hi. split.
+  - destruct fl; [destruct sy|]; simpl; [apply (pinv_flush s); auto | apply (pinv_flush s); auto | pframe s].
+  - unfold running.
+    assert (Hpe : forall t x, rdp t = RdSnapCut r x idx -> pend_idx t = r_snap r) by (intros t x Ht; unfold pend_idx, pend_r; rewrite Ht; reflexivity).
+    assert (Hwe : forall t x, rdp t = RdSnapCut r x idx -> in_window t = 0%nat) by (intros t x Ht; unfold in_window; rewrite Ht; reflexivity).
+    assert (Hp : pend_idx s = r_snap r) by (apply (Hpe s 1%nat); exact E).
+    assert (Hw : in_window s = 0%nat) by (apply (Hwe s 1%nat); exact E).
+    pose proof (v_rd _ _ _ HV) as V. unfold rd_inv in V. rewrite E in V.
+    destruct fl; [destruct sy|]; simpl; proj; rewrite R;
+      (destruct HV; constructor; unfold snap_pend, snap_done, snap_mid, snap_busy in *; proj;
+       rewrite ?(Hpe _ 2%nat), ?(Hwe _ 2%nat) by reflexivity; rewrite ?Hp, ?Hw in *; try assumption; try exact I).
+    all: unfold rd_inv; proj; exact V.
 Qed.
 
 Lemma step_rd_save_after : forall c s s', Inv c s -> step c s EvRdSaveAfter = Ok s' -> Inv c s'.
 Proof.
   intros c s s' HI H. start_step H hi HP HV.
+  2: { unfold running in *. proj. destruct (rc s) eqn:R; try (not_running HV). eapply save_after_snapcut; eauto. }
   unfold running in *. proj. destruct (rc s) eqn:R; try (not_running HV).
   pose proof (pinv_segs_nonempty _ _ HP) as Hne.
   pose proof (v_rd _ _ _ HV) as v_rd. pose proof (v_wstate _ _ _ HV) as v_ws.
@@ -339,7 +474,7 @@ Proof.
     assert (Hrr : ready_records r = [RState (r_snap r)]).
     { rewrite ready_records_eq. assert (Q : (0 <? r_n r) = false) by lia. rewrite Q, Shs, Scm. reflexivity. }
     set (ms := (0 <? r_n r) || r_hs r && r_tv r).
-    assert (Hp0 : pend_idx s = r_snap r) by (unfold pend_idx, pending; rewrite E, Qs; reflexivity).
+    assert (Hp0 : pend_idx s = r_snap r) by (unfold pend_idx, pend_r, pending; rewrite E, Qs; reflexivity).
     assert (Hlc' : last_commit (all_recs (app_tail (segs s) (ready_records r))) = r_snap r).
     { rewrite save_lc by auto. rewrite Shs. exact Scm. }
     assert (G : forall x : state,
@@ -356,8 +491,8 @@ Proof.
         + destruct HP; lia.
         + intros _. specialize (Lc 0%nat ltac:(lia)). rewrite drop_tail_0 in Lc. lia.
       - unfold running. rewrite X2, R.
-        assert (Hpx : pend_idx x = r_snap r) by (unfold pend_idx, pending; rewrite X22, Qs; reflexivity).
-        destruct HV. constructor; unfold snap_pend, snap_done, snap_busy in *; rewrite ?Hpx; rewrite ?Hp0 in *; rewrite ?X1, ?X3, ?X4, ?X5, ?X6, ?X7, ?X8, ?X9, ?X10, ?X11, ?X12, ?X13, ?X14, ?X15, ?X16, ?X17, ?X18, ?X19, ?X20, ?X21, ?X23, ?X24, ?X25;
+        assert (Hpx : pend_idx x = r_snap r) by (unfold pend_idx, pend_r, pending; rewrite X22, Qs; reflexivity).
+        destruct HV. constructor; unfold snap_pend, snap_done, snap_mid, snap_busy in *; rewrite ?Hpx; rewrite ?Hp0 in *; rewrite ?X1, ?X3, ?X4, ?X5, ?X6, ?X7, ?X8, ?X9, ?X10, ?X11, ?X12, ?X13, ?X14, ?X15, ?X16, ?X17, ?X18, ?X19, ?X20, ?X21, ?X23, ?X24, ?X25;
           rewrite ?save_newest, ?save_markers, ?save_unvalidated, ?app_tail_length, ?nth_sfirst_app_tail by auto; auto.
         + (* raft loop *)
           unfold rd_inv. rewrite X22, Qs. split; [reflexivity|].
@@ -379,7 +514,7 @@ Proof.
           split; [exact A | unfold in_window; rewrite X22, Qs; reflexivity]. }
     fold ms. destruct ms; [destruct (negb (opt_fsync c) || r_hs r && r_tv r)|]; simpl;
       match goal with |- Inv c ?st => destruct (G st) as [G1 G2]; [unfold save_frame; proj; repeat split; reflexivity | proj; reflexivity | reflexivity | exists hi; split; assumption] end. }
-  assert (Hp0 : pend_idx s = 0) by (unfold pend_idx, pending; rewrite E, Qs; reflexivity).
+  assert (Hp0 : pend_idx s = 0) by (unfold pend_idx, pend_r, pending; rewrite E, Qs; reflexivity).
   destruct apd.
   - (* the records were encoded before the cut: only the flush remains *)
     destruct v_rd as [F [[Shi Sc] [Hws Pp]]].
@@ -391,8 +526,8 @@ Proof.
                  save_frame s x r (segs s) (wstate s) (wcommit s) (hcommit s) (RdBegun r true pb) ->
                  (if running x then VInv c x hi else RInv x)).
       { intros x X. frame_eqs X. unfold running. rewrite X2, R.
-        assert (Hpx : pend_idx x = 0) by (unfold pend_idx, pending; rewrite X22, Qs; reflexivity).
-        destruct HV. constructor; unfold snap_pend, snap_done, snap_busy in *; rewrite ?Hpx; rewrite ?Hp0 in *; rewrite ?X1, ?X3, ?X4, ?X5, ?X6, ?X7, ?X8, ?X9, ?X10, ?X11, ?X12, ?X13, ?X14, ?X15, ?X16, ?X17, ?X18, ?X19, ?X20, ?X21, ?X23, ?X24, ?X25; auto.
+        assert (Hpx : pend_idx x = 0) by (unfold pend_idx, pend_r, pending; rewrite X22, Qs; reflexivity).
+        destruct HV. constructor; unfold snap_pend, snap_done, snap_mid, snap_busy in *; rewrite ?Hpx; rewrite ?Hp0 in *; rewrite ?X1, ?X3, ?X4, ?X5, ?X6, ?X7, ?X8, ?X9, ?X10, ?X11, ?X12, ?X13, ?X14, ?X15, ?X16, ?X17, ?X18, ?X19, ?X20, ?X21, ?X23, ?X24, ?X25; auto.
         unfold rd_inv. rewrite X22, Qs, X1, X8. unfold rlast in *. rewrite X7, X21. unfold pubcl in *. rewrite X8.
         2:{ destruct v_latest as [[A|[A _]] B]; [split; [left; exact A | exact B]|].
             exfalso. unfold in_window in A. rewrite E, Qs in A. discriminate. }
@@ -424,11 +559,11 @@ Proof.
                             (if r_hs r then r_commit r else wcommit s) (if r_hs r then r_commit r else hcommit s) (RdBegun r true pb) ->
                  (if running x then VInv c x (rlast s r) else RInv x)).
       { intros x X. frame_eqs X. unfold running. rewrite X2, R.
-        assert (Hpx : pend_idx x = 0) by (unfold pend_idx, pending; rewrite X22, Qs; reflexivity).
+        assert (Hpx : pend_idx x = 0) by (unfold pend_idx, pend_r, pending; rewrite X22, Qs; reflexivity).
         assert (Hai' : app_inv x (rlast s r)).
         { apply (app_inv_grow s x hi (rlast s r)); auto. rewrite X1. apply save_newest; auto. }
         assert (Hqi' : queue_inv x (rlast s r)) by (apply (queue_inv_grow s x hi (rlast s r)); auto).
-        destruct HV. constructor; try exact Hai'; try exact Hqi'; unfold snap_pend, snap_done, snap_busy in *; rewrite ?Hpx; rewrite ?Hp0 in *; rewrite ?X1, ?X3, ?X4, ?X5, ?X6, ?X7, ?X8, ?X9, ?X10, ?X11, ?X12, ?X13, ?X14, ?X15, ?X16, ?X17, ?X18, ?X19, ?X20, ?X21, ?X23, ?X24, ?X25;
+        destruct HV. constructor; try exact Hai'; try exact Hqi'; unfold snap_pend, snap_done, snap_mid, snap_busy in *; rewrite ?Hpx; rewrite ?Hp0 in *; rewrite ?X1, ?X3, ?X4, ?X5, ?X6, ?X7, ?X8, ?X9, ?X10, ?X11, ?X12, ?X13, ?X14, ?X15, ?X16, ?X17, ?X18, ?X19, ?X20, ?X21, ?X23, ?X24, ?X25;
           rewrite ?save_newest, ?save_markers, ?save_unvalidated, ?app_tail_length, ?nth_sfirst_app_tail by auto; auto;
           try (unfold rd_inv; rewrite X22, Qs, X1, X8; unfold rlast in *; rewrite X7, X21; rewrite Hlc'; unfold pubcl in *; rewrite X8);
           clear X1 X2 X3 X4 X5 X6 X7 X8 X9 X10 X11 X12 X13 X14 X15 X16 X17 X18 X19 X20 X21 X22 X23 X24 X25.
@@ -479,20 +614,20 @@ Proof.
   destruct (0 <? r_snap r) eqn:Qs.
   - (* the incoming snapshot goes to the apply loop *)
     destruct sv; [destruct v_rd as [X _]; discriminate|]. destruct v_rd as [SF [Lc [Fs [Pl Plt]]]].
-    assert (Hp0 : pend_idx s = r_snap r) by (unfold pend_idx, pending; rewrite E, Qs; reflexivity).
-    assert (Hp1 : pend_idx s1 = r_snap r) by (unfold pend_idx, pending, s1; proj; rewrite Qs; reflexivity).
+    assert (Hp0 : pend_idx s = r_snap r) by (unfold pend_idx, pend_r, pending; rewrite E, Qs; reflexivity).
+    assert (Hp1 : pend_idx s1 = r_snap r) by (unfold pend_idx, pend_r, pending, s1; proj; rewrite Qs; reflexivity).
     assert (Hpub1 : published s1 = r_snap r) by (unfold s1; proj; rewrite ?Qs; reflexivity).
     assert (Hai' : app_inv s1 hi).
     { apply (app_inv_pub s s1 hi); auto; try (unfold s1; proj; reflexivity); try lia. }
     assert (Hqi' : queue_inv (set_queue s1 (queue s)) hi).
     { apply (queue_inv_pub s (set_queue s1 (queue s)) hi); auto; try (unfold s1; proj; reflexivity); try lia.
-      all: try (unfold pend_idx, pending, s1; proj; rewrite ?E, ?Qs; reflexivity).
+      all: try (unfold pend_idx, pend_r, pending, s1; proj; rewrite ?E, ?Qs; reflexivity).
       all: try (unfold s1; proj; rewrite ?Qs; lia). }
     destruct SF as [Sn [Scn [Shs [Scm [Shi [Slt Spr]]]]]].
-    assert (Hp1q : pend_idx (set_queue s1 (queue s)) = r_snap r) by (unfold pend_idx, pending, s1; proj; rewrite ?Qs; reflexivity).
-    unfold app_inv, queue_inv, snap_pend, snap_done in Hai', Hqi'. rewrite Hp1 in Hai'. rewrite Hp1q in Hqi'. unfold s1 in *. clear s1. proj. rewrite ?Qs in *.
-    vinv_split HV; unfold snap_pend, snap_done in *; proj; rewrite ?Qs;
-      repeat match goal with |- context [pend_idx ?t] => tryif is_var t then fail else replace (pend_idx t) with (r_snap r) by (unfold pend_idx, pending; proj; rewrite ?Qs; reflexivity) end;
+    assert (Hp1q : pend_idx (set_queue s1 (queue s)) = r_snap r) by (unfold pend_idx, pend_r, pending, s1; proj; rewrite ?Qs; reflexivity).
+    unfold app_inv, queue_inv, snap_pend, snap_done, snap_mid in Hai', Hqi'. rewrite Hp1 in Hai'. rewrite Hp1q in Hqi'. unfold s1 in *. clear s1. proj. rewrite ?Qs in *.
+    vinv_split HV; unfold snap_pend, snap_done, snap_mid in *; proj; rewrite ?Qs;
+      repeat match goal with |- context [pend_idx ?t] => tryif is_var t then fail else replace (pend_idx t) with (r_snap r) by (unfold pend_idx, pend_r, pending; proj; rewrite ?Qs; reflexivity) end;
       rewrite ?Hp0 in *; try assumption.
     + unfold rd_inv. proj. rewrite Qs. unfold snapfacts in *. proj. repeat split; auto.
     + lia.
@@ -504,8 +639,8 @@ Proof.
     + intros f Hf Hn. destruct (v_files f Hf Hn) as [A|[_ A]]; [left; exact A|].
       exfalso. unfold in_window in A. rewrite E in A. discriminate.
   - (* committed entries *)
-    assert (Hp0 : pend_idx s = 0) by (unfold pend_idx, pending; rewrite E, Qs; reflexivity).
-    assert (Hp1 : pend_idx s1 = 0) by (unfold pend_idx, pending, s1; proj; rewrite Qs; reflexivity).
+    assert (Hp0 : pend_idx s = 0) by (unfold pend_idx, pend_r, pending; rewrite E, Qs; reflexivity).
+    assert (Hp1 : pend_idx s1 = 0) by (unfold pend_idx, pend_r, pending, s1; proj; rewrite Qs; reflexivity).
     assert (Hpubge : published s <= (if 0 <? r_cn r then r_clast r else published s)
                      /\ (if 0 <? r_cn r then r_clast r else published s) <= hi
                      /\ (sv = true -> (if 0 <? r_cn r then r_clast r else published s) <= last_commit (all_recs (segs s)))).
@@ -523,11 +658,11 @@ Proof.
     { apply (app_inv_pub s s1 hi); auto; try (unfold s1; proj; reflexivity); try lia; try (unfold s1; proj; rewrite ?Qs; exact G1). }
     assert (Hqi' : queue_inv (set_queue s1 (queue s)) hi).
     { apply (queue_inv_pub s (set_queue s1 (queue s)) hi); auto; try (unfold s1; proj; reflexivity); try lia.
-      all: try (unfold pend_idx, pending, s1; proj; rewrite ?E, ?Qs; reflexivity).
+      all: try (unfold pend_idx, pend_r, pending, s1; proj; rewrite ?E, ?Qs; reflexivity).
       all: try (unfold s1; proj; rewrite ?Qs; first [exact G1 | lia]). }
-    assert (Hp1q : pend_idx (set_queue s1 (queue s)) = 0) by (unfold pend_idx, pending, s1; proj; rewrite ?Qs; reflexivity).
-    unfold app_inv, queue_inv, snap_pend, snap_done in Hai', Hqi'. rewrite Hp1 in Hai'. rewrite Hp1q in Hqi'. unfold s1 in *. clear s1. proj. rewrite ?Qs in *.
-    vinv_split HV; unfold snap_pend, snap_done in *; proj; rewrite ?Qs; pend_goal0 Qs; rewrite ?Hp0 in *; try assumption.
+    assert (Hp1q : pend_idx (set_queue s1 (queue s)) = 0) by (unfold pend_idx, pend_r, pending, s1; proj; rewrite ?Qs; reflexivity).
+    unfold app_inv, queue_inv, snap_pend, snap_done, snap_mid in Hai', Hqi'. rewrite Hp1 in Hai'. rewrite Hp1q in Hqi'. unfold s1 in *. clear s1. proj. rewrite ?Qs in *.
+    vinv_split HV; unfold snap_pend, snap_done, snap_mid in *; proj; rewrite ?Qs; pend_goal0 Qs; rewrite ?Hp0 in *; try assumption.
     + unfold rd_inv, pubcl in *. proj. rewrite Qs. unfold rlast in *. proj. destruct sv.
       * destruct v_rd as [Fx [Sx [Pl Pp]]]. split; [exact Fx|]. split; [exact Sx|]. split; [apply G3; reflexivity|].
         destruct (0 <? r_cn r); [reflexivity | apply G3; reflexivity].
@@ -554,14 +689,14 @@ Proof.
     pose proof (v_rd _ _ _ HV) as v_rd.
     unfold rd_inv in v_rd. rewrite E, Qs in v_rd. destruct v_rd as [[F1 F2] [[Shi Sc] [Pl Pp]]].
     destruct (v_done _ _ _ HV) as [D1 [D2 D3]].
-    assert (Hp0 : pend_idx s = 0) by (unfold pend_idx, pending; rewrite E, Qs; reflexivity).
+    assert (Hp0 : pend_idx s = 0) by (unfold pend_idx, pend_r, pending; rewrite E, Qs; reflexivity).
     pose proof (vinv_app_inv _ _ _ HV) as Hai. pose proof (vinv_queue_inv _ _ _ HV) as Hqi.
     match goal with |- VInv c ?st _ => set (s1 := st) end.
-    assert (Hp1 : pend_idx s1 = 0) by (unfold pend_idx, pending, s1; proj; reflexivity).
+    assert (Hp1 : pend_idx s1 = 0) by (unfold pend_idx, pend_r, pending, s1; proj; reflexivity).
     assert (Hai' : app_inv s1 hi) by (apply (app_inv_done s s1 hi); auto; try (left; congruence); unfold s1; proj; lia).
     assert (Hqi' : queue_inv s1 hi) by (apply (queue_inv_same s s1 hi); auto; left; congruence).
-    unfold app_inv, queue_inv, snap_pend, snap_done in Hai', Hqi'. rewrite Hp1 in Hai', Hqi'. unfold s1 in *. clear s1. proj.
-    vinv_split HV; unfold snap_pend, snap_done in *; proj; pend_goal0 Qs; rewrite ?Hp0 in *; try assumption.
+    unfold app_inv, queue_inv, snap_pend, snap_done, snap_mid in Hai', Hqi'. rewrite Hp1 in Hai', Hqi'. unfold s1 in *. clear s1. proj.
+    vinv_split HV; unfold snap_pend, snap_done, snap_mid in *; proj; pend_goal0 Qs; rewrite ?Hp0 in *; try assumption.
     + unfold rd_inv. proj. unfold rlast in Shi. split; [exact Shi | exact Pl].
     + destruct v_latest as [[A|[A _]] B]; [split; [left; exact A | exact B]|].
       exfalso. unfold in_window in A. rewrite E, Qs in A. discriminate.
@@ -575,14 +710,14 @@ Proof.
     unfold rd_inv in v_rd. rewrite E in v_rd. destruct v_rd as [Hs [Hhi [Hpub [Hrl Hnw]]]].
     destruct (v_done _ _ _ HV) as [D1 [D2 D3]].
     pose proof (pinv_lc0 _ _ HP) as Hlc.
-    assert (Hp0 : pend_idx s = 0) by (unfold pend_idx, pending; rewrite E; reflexivity).
+    assert (Hp0 : pend_idx s = 0) by (unfold pend_idx, pend_r, pending; rewrite E; reflexivity).
     pose proof (vinv_app_inv _ _ _ HV) as Hai. pose proof (vinv_queue_inv _ _ _ HV) as Hqi.
     match goal with |- VInv c ?st _ => set (s1 := st) end.
-    assert (Hp1 : pend_idx s1 = 0) by (unfold pend_idx, pending, s1; proj; reflexivity).
+    assert (Hp1 : pend_idx s1 = 0) by (unfold pend_idx, pend_r, pending, s1; proj; reflexivity).
     assert (Hai' : app_inv s1 hi) by (apply (app_inv_done s s1 hi); auto; try (left; congruence); unfold s1; proj; lia).
     assert (Hqi' : queue_inv s1 hi) by (apply (queue_inv_same s s1 hi); auto; left; congruence).
-    unfold app_inv, queue_inv, snap_pend, snap_done in Hai', Hqi'. rewrite Hp1 in Hai', Hqi'. unfold s1 in *. clear s1. proj.
-    vinv_split HV; unfold snap_pend, snap_done in *; proj; pend_goal0 E; rewrite ?Hp0 in *; try assumption.
+    unfold app_inv, queue_inv, snap_pend, snap_done, snap_mid in Hai', Hqi'. rewrite Hp1 in Hai', Hqi'. unfold s1 in *. clear s1. proj.
+    vinv_split HV; unfold snap_pend, snap_done, snap_mid in *; proj; pend_goal0 E; rewrite ?Hp0 in *; try assumption.
     + unfold rd_inv. proj. split; [exact Hhi | lia].
     + destruct v_latest as [[A|[A _]] B]; [split; [left; exact A | exact B]|].
       exfalso. unfold in_window in A. rewrite E in A. discriminate.
@@ -604,15 +739,15 @@ Proof.
     { pose proof (v_queue _ _ _ HV) as Q. rewrite E0 in Q. inversion Q; assumption. }
     destruct Hq as [_ Hq]. match goal with G : (0 <? b_snap b) = true |- _ => apply N.ltb_lt in G; specialize (Hq G) end.
     destruct Hq as [_ Hsp].
-    vinv_split HV; unfold snap_pend, snap_done in *; proj;
-      repeat match goal with |- context [pend_idx ?t] => tryif is_var t then fail else replace (pend_idx t) with (pend_idx s) by (unfold pend_idx, pending; proj; reflexivity) end;
+    vinv_split HV; unfold snap_pend, snap_done, snap_mid in *; proj;
+      repeat match goal with |- context [pend_idx ?t] => tryif is_var t then fail else replace (pend_idx t) with (pend_idx s) by (unfold pend_idx, pend_r, pending; proj; reflexivity) end;
       try assumption.
     + rewrite E0 in v_queue. inversion v_queue; assumption.
     + rewrite E in v_app. destruct Hsp as [X1 [X2 X3]]. repeat split; auto; lia.
   - exists hi. split; [pframe s|].
     unfold running in *. proj. destruct (rc s) eqn:R; try discriminate.
-    vinv_split HV; unfold snap_pend, snap_done in *; proj;
-      repeat match goal with |- context [pend_idx ?t] => tryif is_var t then fail else replace (pend_idx t) with (pend_idx s) by (unfold pend_idx, pending; proj; reflexivity) end;
+    vinv_split HV; unfold snap_pend, snap_done, snap_mid in *; proj;
+      repeat match goal with |- context [pend_idx ?t] => tryif is_var t then fail else replace (pend_idx t) with (pend_idx s) by (unfold pend_idx, pend_r, pending; proj; reflexivity) end;
       try assumption.
     + rewrite E0 in v_queue. inversion v_queue; assumption.
     + rewrite E in v_app. rewrite E0 in v_queue. inversion v_queue as [|x y [X1 X2] Y]; subst. split; assumption.
